@@ -58,6 +58,11 @@ func (c *fnCtx) call(in ssa.Instruction, cc *ssa.CallCommon, rt types.Type) *Val
 func (c *fnCtx) callStatic(in ssa.Instruction, callee *ssa.Function, closure *ssa.MakeClosure, cc *ssa.CallCommon, args []*Val, rt types.Type) *Val {
 	pos := in.Pos()
 	_ = pos
+	if c.eng.isModule(callee) && callee.Blocks != nil {
+		// remembered for counterexample lifting: arguments, reach condition and heap at the call
+		r := c.root()
+		r.callSites = append(r.callSites, &callSite{callee: callee, reach: c.reach[c.curB], args: args, st: c.st.clone()})
+	}
 	name := callee.String()
 	if !(strings.HasSuffix(name, "ndian).PutUint16") || strings.HasSuffix(name, "ndian).PutUint32") || strings.HasSuffix(name, "ndian).PutUint64") || name == "io.ReadFull") {
 		if !(c.eng.isModule(callee) && callee.Blocks != nil && c.eng.contractOf(callee) == nil && c.canInline(callee)) {
